@@ -133,7 +133,7 @@ REGISTRY = {
         "trusted_base": COMMON_TRUST, "assumptions": [EXTERNAL, "noodles-vcf text rendering is trusted"],
     },
     "C11": {
-        "level": "proof", "modules": ["SkaModel.Props.C11", "SkaModel.Props.C11Offsets", "SkaModel.Props.C18Derep", "SkaModel.Props.C17Pipe", "SkaModel.Props.C17Ref", "SkaModel.Props.C17Union"], "gen": [], "cli": [cli.c11_cli, cli.joint_reads_cli],
+        "level": "proof", "modules": ["SkaModel.Props.C11", "SkaModel.Props.C11Offsets", "SkaModel.Props.C18Derep", "SkaModel.Props.C17Pipe", "SkaModel.Props.C17Ref", "SkaModel.Props.C17Union"], "gen": [], "cli": [cli.c11_cli, cli.joint_reads_cli, cli.auto_mincount_cli],
         "rule": "CLI matrix subcommand x input kind x threads x repetitions x sample counts on both sides of the 10-samples-per-thread rule (each process draws fresh hash seeds); non-trivial = distinct (sample count) families compared",
         "trusted_base": COMMON_TRUST, "assumptions": [EXTERNAL, "actual rayon scheduling and DashMap interleavings are sampled by the matrix, not proved"],
     },
